@@ -1,4 +1,3 @@
-//go:build verif
 
 package checks
 
